@@ -682,8 +682,14 @@ pub fn run(args: &Args) -> i32 {
           Some(x) => x,
           None => break,
         };
-        // domain ids 20..219, disjoint per worker, rotating
-        let domain = 20 + (wk as u16) * 20 + (k % 20);
+        // Domain ids 1..=80, disjoint per worker, rotating.  They must stay below 101: the RTPS well-known ports are
+        // 7400 + 250 * domain (+ offsets), and from domain 102 on they fall into the kernel's ephemeral range
+        // (32768..60999), where any unrelated socket - e.g. a UDPSender of another participant - may already sit on
+        // the multicast discovery port; the participant then runs without a multicast listener ("Cannot get multicast
+        // discovery listener") and is never discovered.  That is the environment, not the property: it made 2 of
+        // about 50 runs fail with "no match at all" for one scenario when domains went up to 219.
+        let per = (80 / workers.max(1)).max(1) as u16;
+        let domain = 1 + (wk as u16) * per + (k % per);
         k += 1;
         let t0 = Instant::now();
         let res = std::panic::catch_unwind(std::panic::AssertUnwindSafe(|| {
